@@ -61,6 +61,8 @@ def build_corpus(tier, rng):
         newc = "new:" + ",".join(str(100 + 7 * p) for p in range(ns))
         ctors = [newc, "filled:9", "closure"]
         c.add_q(k, "table", ["slots"], note="slots")
+        if not it.cparams:
+            c.add_q(k, "ctor", ["default"], note="default")
         for ct in ctors:
             c.add_q(k, "table", [ct, "D"] + ["r%d" % i for i in en + dis] + ["T", "D"], note="ctor")
         keys = en + dis
@@ -98,6 +100,10 @@ def render_def(k, it, meta, cfg):
 
 
 def compare(corpus, k, kind, args, note, iobs, mobs, cfg):
+    if kind == "ctor":
+        n = len(corpus.meta[k]["enabled"])
+        want = "rc=[%s]|atomic=[%s]" % (";".join(["1"] * n), ";".join(["0"] * n))
+        return iobs == want, True, "expected %s" % want
     if args[0] == "slots":
         # field names are private; the model's slot list is checked against the harness's reading of the definition
         en = corpus.meta[k]["enabled"]
